@@ -329,7 +329,7 @@ pub(crate) fn t_p_trans() {
     }
     let out = p.feed(ch);
     let (want_state, want_act) = ref_step(s, ch);
-    assert!(p.state == want_state, "[C03] next state agrees with the DEC/ANSI parser table");
+    assert!(p.state == want_state, "[C03][C20] next state agrees with the DEC/ANSI parser table");
     let (ract, rchar, rcalls) = unsafe { (REC_ACT, REC_CHAR, REC_CALLS) };
     match want_act {
         Act::Print => {
@@ -337,14 +337,14 @@ pub(crate) fn t_p_trans() {
             assert!(rcalls == 0, "[C03] print performs no other action");
         }
         Act::Ignore => {
-            assert!(out.is_none() && rcalls == 0, "[C03] ignored characters cause no action");
+            assert!(out.is_none() && rcalls == 0, "[C03][C20] ignored characters cause no action");
         }
         a => {
             // under Kani the helpers are recorders; in a native replay the real helpers ran, so
             // the same clause is judged from what is observable (returned function / fields)
             #[cfg(kani)]
             {
-                assert!(rcalls == 1 && ract == act_code(a), "[C03] kind of action agrees with the DEC/ANSI parser table");
+                assert!(rcalls == 1 && ract == act_code(a), "[C03][C20] kind of action agrees with the DEC/ANSI parser table");
                 if a != Act::Clear {
                     assert!(rchar == ch as u32, "[C03] the action receives the input character itself");
                 }
@@ -360,7 +360,7 @@ pub(crate) fn t_p_trans() {
                     Act::Put | Act::OscPut | Act::Param => out.is_none(),
                     _ => true,
                 };
-                assert!(ok, "[C03] kind of action agrees with the DEC/ANSI parser table");
+                assert!(ok, "[C03][C20] kind of action agrees with the DEC/ANSI parser table");
             }
         }
     }
